@@ -27,6 +27,7 @@ from isla.derivation_tree import DerivationTree
 from isla.helpers import canonical, compute_nullable_nonterminals, is_nonterminal
 from isla.language import Constant
 from grammar_graph import gg
+import c14_int
 
 IMPORTS = "FixedLen"
 COUNT_CPU_S = 8   # CPU seconds per count() call; a cut run is inconclusive
@@ -390,7 +391,11 @@ def run(run):
         "random.choice recorded and replayed by the model; non-trivial = target length >= 2 and the grammar has a "
         "nullable nonterminal or a multi-character terminal. nullable sets: all grammars. "
         "find_expansion_without_needle: every (open leaf label, needle) pair of the grammars. count: random open "
-        "derivation trees x needle x target -1..4 (+ variable num); non-trivial = tree has an open leaf reaching the needle")
+        "derivation trees x needle x target -1..4 (+ variable num); non-trivial = tree has an open leaf reaching the needle. "
+        "extract_model_value_int_var: real ISLaSolver objects over 3 fixed grammars (docstring grammar <sign>00<lead><digits>, "
+        "plain/fixed-width/signed/'+'-mandatory/ambiguous/non-numeric/non-regular nonterminals) + random numeric grammars "
+        "(sign x padding x digit-body variants), integers 0, 1, 5 + sample of {9..1234, 10^20+7, negatives}; "
+        "non-trivial = str(z) is rejected by the grammar (Z3 query runs: padded/signed candidate or RuntimeError)")
     proof_ok = run.proof_stage()
     t_start = time.time()
 
@@ -623,6 +628,14 @@ def run(run):
                  "fun c : grammar * (str -> str -> bool) * str * nat * tree => let '(g, R, nd, tg, t) := c in "
                  "meets_count R nd tg t && wf_treeb g t", h_res))
 
+    # ---------------- 3b. extract_model_value_int_var (stream `int`, harness/c14_int.py) ----------------
+    import sys
+    try:
+        jobs.append(c14_int.build(run, thorough, disagreements, sys.modules[__name__]))
+    except Exception as e:      # a crash of the driver itself is a broken correspondence, not a verdict
+        not_evaluable("IntValue.v int_value (driver)", repr(e))
+    _dbg("int python done", run.cov.get("python_seconds_int"), run.cov.get("int_outcomes"))
+
     # ---------------- evaluate all models in Coq (all batches concurrently) ----------------
     import concurrent.futures as cf
     t_coq = time.time()
@@ -650,7 +663,8 @@ def run(run):
         disagreements.sort(key=lambda d: len(json.dumps(d, default=str)))
         run.violation({"kind": "correspondence broken but the property holds on every case searched",
                        "first": disagreements[0], "count": len(disagreements),
-                       "obligation": f"correspondence FixedLen.v <-> {disagreements[0]['what']}"}, found_input=False)
+                       "obligation": ("correspondence IntValue.v <-> " if disagreements[0]['what'].startswith("extract_model")
+                                      else "correspondence FixedLen.v <-> ") + disagreements[0]['what']}, found_input=False)
     if not proof_ok:
         run.violation({"kind": "proof obligation failed", "problems": run.proof_problems,
                        "obligation": "Props/C14.v"}, found_input=False)
@@ -659,6 +673,10 @@ def run(run):
         "GrammarGraph.reachable enters the count model as a function argument (table computed by the library; the "
         "harness reference recomputes it as the transitive closure of the grammar)",
         "insert_tree results are abstract inputs of finish_candidate (C13); node ids are ignored",
+        "extract_model_value_int_var: the Z3 query (maybe_plus, padding against extract_regular_expression) is an "
+        "oracle of the model; its answer is read off the string handed to the second ISLaSolver.parse call "
+        "(recorded by a wrapper) and checked in Coq to have the supported shape; soundness theorems hold for every "
+        "oracle; ISLaSolver.parse is the C10 model solver_parse (fuel hfuel proved sufficient)",
         "termination is not claimed: runs of the implementation cut by a budget are inconclusive and skipped "
         "(create_fixed_length_tree: call budget, cflt_outcomes.budget; count: CPU-time budget, count_outcomes.timeout)"]
 
@@ -669,6 +687,9 @@ def replay(path):
     if not w:
         print("replay file names an obligation, not an input:", d.get("obligation")); return 1
     cg = {k: [list(a) for a in v] for k, v in w["grammar"].items()}
+    if w["what"].startswith("extract_model_value_int_var"):
+        import sys
+        return c14_int.replay_int(sys.modules[__name__], w)
     if w["what"].startswith("create_fixed_length_tree"):
         if "choices" in w:
             # re-run the implementation with the recorded choices (then the run's PRNG), under the call budget:
